@@ -647,14 +647,15 @@ def local_renames(base, cur, bmap):
     return res
 
 
-def merge(olines, base, cur, relpath, overlay_name):
-    """emit the current code with the overlay's annotation lines.  Returns (out_lines, origin, info).
-    origin[i] = ('C', relpath, repo_line) | ('A', overlay_name, overlay_line)."""
+def _line_map(base, cur):
+    """base idx -> ('eq'|'mod', cur idx); vanished base idx -> cur idx after which its annotations go (-1: file head);
+    lines that moved inside the file (identical text, unmatched on both sides, unique) are mapped as 'eq'"""
     bs = [t.strip() for t, _ in base]
     cs = [t.strip() for t, _ in cur]
     sm = difflib.SequenceMatcher(a=bs, b=cs, autojunk=False)
-    bmap = {}     # base idx -> ('eq'|'mod', cur idx)
+    bmap, anchor = {}, {}
     changed = 0
+    free_b, free_c = [], []
     for tag, i1, i2, j1, j2 in sm.get_opcodes():
         if tag == 'equal':
             for d in range(i2 - i1):
@@ -665,13 +666,67 @@ def merge(olines, base, cur, relpath, overlay_name):
             changed += i2 - i1
         else:
             changed += max(i2 - i1, j2 - j1)
-            if tag == 'replace':
-                # lines replaced by a different number of lines: the replacement is emitted where the first replaced
-                # line stood, so that annotation lines which followed the replaced lines still follow the new text
-                for d in range(i2 - i1):
-                    bmap[i1 + d] = ('gone', j2)
-    out, origin, lost = [], [], []
-    cpos = 0
+            # lines replaced by a different number of lines: pair, in order, the lines that are near-identical (a trailing
+            # comma, one token); the rest vanished / are new
+            paired = {}
+            jn = j1
+            for bi in range(i1, i2):
+                for cj in range(jn, j2):
+                    if len(bs[bi]) >= 8 and difflib.SequenceMatcher(a=bs[bi], b=cs[cj], autojunk=False).ratio() >= 0.85:
+                        paired[bi] = cj
+                        jn = cj + 1
+                        break
+            for bi in range(i1, i2):
+                if bi in paired:
+                    bmap[bi] = ('mod', paired[bi])
+                    continue
+                # annotation lines that followed a vanished line go after the text that replaced it
+                anchor[bi] = j2 - 1
+                free_b.append(bi)
+            free_c.extend(c for c in range(j1, j2) if c not in paired.values())
+    # moved lines: inside one function, a vanished line whose text reappears exactly once among the new lines of that function
+    moved = 0
+    free_cs = set(free_c)
+    for lo, hi in _fn_spans(base):
+        imgs = [bmap[b][1] for b in range(lo, hi + 1) if b in bmap]
+        if not imgs:
+            continue
+        clo, chi = min(imgs), max(imgs)
+        fb = [b for b in free_b if lo <= b <= hi]
+        fc = [c for c in range(clo, chi + 1) if c in free_cs]
+        by_text_b, by_text_c = {}, {}
+        for bi in fb:
+            by_text_b.setdefault(bs[bi], []).append(bi)
+        for ci in fc:
+            by_text_c.setdefault(cs[ci], []).append(ci)
+        for t, lb in by_text_b.items():
+            lc = by_text_c.get(t, [])
+            if len(lb) == 1 and len(lc) == 1 and len(t) >= 12:
+                bmap[lb[0]] = ('eq', lc[0])
+                del anchor[lb[0]]
+                free_cs.discard(lc[0])
+                moved += 1
+        # ... or reappears with a small edit (a trailing comma, one token): unique near-identical partner
+        for bi in fb:
+            if bi in bmap or len(bs[bi]) < 12:
+                continue
+            near = [ci for ci in fc if ci in free_cs and difflib.SequenceMatcher(a=bs[bi], b=cs[ci], autojunk=False).ratio() >= 0.9]
+            if len(near) == 1 and sum(1 for b2 in fb if b2 not in bmap and difflib.SequenceMatcher(a=bs[b2], b=cs[near[0]], autojunk=False).ratio() >= 0.9) == 1:
+                bmap[bi] = ('mod', near[0])
+                del anchor[bi]
+                free_cs.discard(near[0])
+                moved += 1
+    return bmap, anchor, changed, moved
+
+
+def merge(olines, base, cur, relpath, overlay_name):
+    """emit the current code with the overlay's annotation lines.  Returns (out_lines, origin, info).
+    origin[i] = ('C', relpath, repo_line) | ('A', overlay_name, overlay_line).
+    The current lines are emitted in their order; every overlay code line carries the annotation lines that follow it (and the
+    attribute lines that precede it) to wherever its image is; annotation lines of a vanished line go after the text that
+    replaced it."""
+    bmap, anchor, changed, moved = _line_map(base, cur)
+    lost = []
     # T20: a consistent rename of a local identifier inside a function is carried over to that function's annotation lines
     renames = local_renames(base, cur, bmap)
     renamed = 0
@@ -695,60 +750,61 @@ def merge(olines, base, cur, relpath, overlay_name):
                 if t2 != ol.text:
                     ol.text = t2
                     renamed += 1
-
-    def flush(upto):
-        nonlocal cpos
-        while cpos < upto:
-            out.append(cur[cpos][0])
-            origin.append(('C', relpath, cur[cpos][1]))
-            cpos += 1
-
-    pending = []   # attribute lines (`#[..]`) belong to the code line that follows them
-
-    def emit_pending():
-        for pl in pending:
-            out.append(pl.text)
-            origin.append(('A', overlay_name, pl.ono))
-        del pending[:]
-
+    # blocks: head (before the first code line), and per overlay code line: leading attribute lines + trailing annotation lines
+    head, lead, trail, code = [], {}, {}, []
+    cur_block = head
     for ol in olines:
         if ol.bidx is None:
             if ol.kind not in ('plain', 'ret', 'iter'):
                 raise SystemExit('%s:%d: rewrite directive does not match any base line: %r' % (overlay_name, ol.ono, ol.base))
-            if ol.text.strip().startswith('#['):
-                pending.append(ol)
-                continue
-            emit_pending()
-            out.append(ol.text)
-            origin.append(('A', overlay_name, ol.ono))
+            cur_block.append(ol)
             continue
+        # attribute lines (`#[..]`) directly before a code line belong to it
+        attrs = []
+        while cur_block and cur_block[-1].text.strip().startswith('#['):
+            attrs.insert(0, cur_block.pop())
+        lead[id(ol)] = attrs
+        cur_block = trail.setdefault(id(ol), [])
+        code.append(ol)
+    image = {}      # cur idx -> overlay code line
+    at = {}         # cur idx (or -1) -> overlay code lines that vanished there, in base order
+    for ol in code:
         m = bmap.get(ol.bidx)
         if m is None:
-            # the base line no longer exists in the current text
+            at.setdefault(anchor.get(ol.bidx, -1), []).append(ol)
             if ol.kind != 'plain':
                 lost.append((ol.kind, ol.ono))
-            continue
-        tag, c = m
-        if tag == 'gone':
-            flush(max(c, cpos))
-            if ol.kind != 'plain':
-                lost.append((ol.kind, ol.ono))
-            continue
-        if c < cpos:
-            continue
-        flush(c)
-        emit_pending()
-        ctext = cur[c][0]
-        for k, t in enumerate(derive(ol, ctext, tag == 'eq', lost)):
-            out.append(t)
-            if ol.kind == 'arm' and (0 < k <= len(ol.extra or []) or len(ol.extra or []) + 1 < k <= len(ol.extra or []) + 1 + len(ol.after or [])):
-                origin.append(('A', overlay_name, ol.ono + k))
-            else:
-                origin.append(('C', relpath, cur[c][1]))
-        cpos = c + 1
-    emit_pending()
-    flush(len(cur))
-    info = {'changed_lines': changed, 'lost_rewrites': lost, 'annotation_lines_renamed': renamed}
+        else:
+            image[m[1]] = (ol, m[0])
+    out, origin = [], []
+
+    def emit_ann(block):
+        for x in block:
+            out.append(x.text)
+            origin.append(('A', overlay_name, x.ono))
+
+    emit_ann(head)
+    for ol in at.get(-1, []):
+        emit_ann(lead[id(ol)])
+        emit_ann(trail[id(ol)])
+    for c in range(len(cur)):
+        if c in image:
+            ol, tag = image[c]
+            emit_ann(lead[id(ol)])
+            for k, t in enumerate(derive(ol, cur[c][0], tag == 'eq', lost)):
+                out.append(t)
+                if ol.kind == 'arm' and (0 < k <= len(ol.extra or []) or len(ol.extra or []) + 1 < k <= len(ol.extra or []) + 1 + len(ol.after or [])):
+                    origin.append(('A', overlay_name, ol.ono + k))
+                else:
+                    origin.append(('C', relpath, cur[c][1]))
+            emit_ann(trail[id(ol)])
+        else:
+            out.append(cur[c][0])
+            origin.append(('C', relpath, cur[c][1]))
+        for ol in at.get(c, []):
+            emit_ann(lead[id(ol)])
+            emit_ann(trail[id(ol)])
+    info = {'changed_lines': changed, 'lost_rewrites': lost, 'annotation_lines_renamed': renamed, 'moved_lines': moved}
     return out, origin, info
 
 
@@ -828,7 +884,7 @@ def build_unit(overlay_path, base_root, repo_root, out_path, subst_tables=None, 
         origin.append(('A', name, j + 1))
         n_ann = sum(1 for o in or2 if o[0] == 'A')
         files.append({'file': rel, 'select': select, 'code_lines': len(cur), 'annotation_lines': n_ann,
-                      'changed_vs_base': info['changed_lines'], 'lost_rewrites': info['lost_rewrites'], 'annotation_lines_renamed': info.get('annotation_lines_renamed', 0)})
+                      'changed_vs_base': info['changed_lines'], 'lost_rewrites': info['lost_rewrites'], 'annotation_lines_renamed': info.get('annotation_lines_renamed', 0), 'moved_lines': info.get('moved_lines', 0)})
         # fidelity: the code lines emitted, with the rewrites undone, are exactly the current transformed text
         emitted_code = [t for t, o in zip(o2, or2) if o[0] == 'C']
         if len([1 for _ in cur]) > len(emitted_code) + sum(len(ol.extra or []) for ol in region if ol.kind == 'arm') + len(cur):
